@@ -20,17 +20,25 @@
 (* a different one (possibly after other nodes were already updated).      *)
 (* ForceSync = TRUE models the pinned tree before the fix: step 3 ignored  *)
 (* a declared mode and forced asynchronous=False.                          *)
+(*                                                                         *)
+(* Source.start() hands the polling coroutine to the *node's* loop         *)
+(* (loop.add_callback, which is thread-safe), whatever thread or loop the  *)
+(* caller of start() is on: Run(n, from).  StarterLoop = TRUE is the       *)
+(* tempting shortcut (ensure_future on the starter's current loop).        *)
 (***************************************************************************)
 EXTENDS Integers, Sequences, FiniteSets, TLC
 
-CONSTANTS MaxNodes, ForceSync
+CONSTANTS MaxNodes, ForceSync,
+          WithRun,      \* explore Run steps in the model (off in the large constructor-only exploration)
+          StarterLoop
 
 \* loops: 0 none, 1 = L1, 2 = L2 (explicit loop objects), 3 = CUR (caller's current loop), 4 = BG
 \* modes: 0 undeclared, 1 = True, 2 = False
-VARIABLES ups, downs, loop, mode, bg, last, dirty
+VARIABLES ups, downs, loop, mode, bg, last, dirty,
+          ranOn     \* ranOn[n]: the loop on which the callbacks of source n were seen to run (0: not started / never ran)
 \* last: outcome of the last Create: [raised, args]
 \* dirty: a constructor raised half-way, or joined pipelines that were already bound differently
-vars == <<ups, downs, loop, mode, bg, last, dirty>>
+vars == <<ups, downs, loop, mode, bg, last, dirty, ranOn>>
 
 N == Len(ups)
 Nodes == 1 .. N
@@ -39,7 +47,7 @@ BG == 4
 
 Init == ups = <<>> /\ downs = <<>> /\ loop = <<>> /\ mode = <<>> /\ bg = FALSE
         /\ last = [raised |-> FALSE, n |-> 0, la |-> 0, aa |-> 0, ens |-> FALSE, ups |-> <<>>, bgNew |-> FALSE]
-        /\ dirty = FALSE
+        /\ dirty = FALSE /\ ranOn = <<>>
 
 \* a percolation state: [loop, mode, raised]
 RECURSIVE InformLoop(_, _, _, _, _), InformLoopAll(_, _, _, _, _)
@@ -108,15 +116,22 @@ Create(U, la, aa, ens) ==
           /\ IF s.raised
              THEN \* the half-built node is dropped; nodes updated before the conflict was met stay updated
                   /\ loop' = SubSeq(s.loop, 1, N) /\ mode' = SubSeq(s.mode, 1, N)
-                  /\ UNCHANGED <<ups, downs>>
-             ELSE /\ loop' = s.loop /\ mode' = s.mode
+                  /\ UNCHANGED <<ups, downs, ranOn>>
+             ELSE /\ loop' = s.loop /\ mode' = s.mode /\ ranOn' = Append(ranOn, 0)
                   /\ ups' = Append(ups, U)
                   /\ downs' = [i \in 1 .. n |-> IF i = n THEN <<>>
                                                ELSE IF \E j \in 1 .. Len(U) : U[j] = i THEN Append(downs[i], n) ELSE downs[i]]
 
+\* start() of source n called from a thread whose current loop is `from` (0: a thread without a loop)
+Run(n, from) ==
+    /\ n \in Nodes /\ ups[n] = <<>> /\ loop[n] # 0 /\ ranOn[n] = 0
+    /\ ranOn' = [ranOn EXCEPT ![n] = IF StarterLoop /\ mode[n] = 1 THEN from ELSE loop[n]]
+    /\ UNCHANGED <<ups, downs, loop, mode, bg, last, dirty>>
+
 UpChoices == {<<>>} \cup {<<u>> : u \in Nodes} \cup {<<u, v>> : u \in Nodes, v \in Nodes}
-Next == \E U \in UpChoices, la \in 0 .. 2, aa \in 0 .. 2, ens \in BOOLEAN :
-            (\A i, j \in 1 .. Len(U) : i # j => U[i] # U[j]) /\ Create(U, la, aa, ens)
+Next == \/ \E U \in UpChoices, la \in 0 .. 2, aa \in 0 .. 2, ens \in BOOLEAN :
+              (\A i, j \in 1 .. Len(U) : i # j => U[i] # U[j]) /\ Create(U, la, aa, ens)
+        \/ (WithRun /\ \E n \in Nodes, from \in 0 .. 5 : Run(n, from))
 Spec == Init /\ [][Next]_vars
 
 ----------------------------------------------------------------------------
@@ -126,6 +141,9 @@ Linked(a, b) == (\E i \in 1 .. Len(ups[a]) : ups[a][i] = b) \/ (\E i \in 1 .. Le
 \* C19: one event loop per pipeline -- connected nodes never carry two different loops / modes
 OneLoopPerPipeline == ~dirty => \A a, b \in Nodes : Linked(a, b) /\ loop[a] # 0 /\ loop[b] # 0 => loop[a] = loop[b]
 OneModePerPipeline == ~dirty => \A a, b \in Nodes : Linked(a, b) /\ mode[a] # 0 /\ mode[b] # 0 => mode[a] = mode[b]
+
+\* C19: a source runs all its callbacks on the loop it is bound to, whoever starts it from wherever
+RunsOnOwnLoop == \A n \in 1 .. Len(ranOn) : ranOn[n] # 0 => ranOn[n] = loop[n]
 
 \* the outcome of the last constructor call, for a node that extends exactly one pipeline (or none)
 L == last
